@@ -132,8 +132,9 @@ prop("C08", [
 ], explanation="prefix containment predicates against the written-prefix spec, all addresses and all prefix lengths")
 
 prop("C12", [
-    dict(engine="kani", sets=["dhcp_flag"]),
-], explanation="broadcast flag test over all 65536 flag values")
+    dict(engine="kani", sets=["dhcp_flag", "net_packet"]),
+    dict(engine="verus", unit="dhcpparse", fns=["parse", "parse_options", "null_terminated"]),
+], explanation="broadcast flag over all 65536 values; one's-complement fold complete over all u32 sums, word summation bounded; DHCP decoder == RFC decoding spec (dec_opts) for all byte strings")
 
 
 # ---------------------------------------------------------------------------------------------
